@@ -369,7 +369,10 @@ fn decide(inner: &mut Inner) {
 pub fn fs_gate(tid: usize, call: &FsCall) -> Fault {
     let res = match call.kind {
         FsKind::Create | FsKind::Unlink => Res { bits: R_DIR, files: vec![call.name.clone()], files_r: vec![] },
-        FsKind::Read | FsKind::Pread => Res { bits: 0, files: vec![], files_r: vec![call.name.clone()] },
+        // a positional read only reads; read() and lseek() also move the file
+        // position, which every user of the same open file shares: write class
+        FsKind::Pread => Res { bits: 0, files: vec![], files_r: vec![call.name.clone()] },
+        FsKind::Read | FsKind::Seek => Res { bits: 0, files: vec![call.name.clone()], files_r: vec![] },
         FsKind::Opendir => Res::bits(R_DIR),
         FsKind::Open => {
             if call.name == "LOCK" {
